@@ -12,6 +12,7 @@
              the text): evaluated over a grid of (old length, requested length)
  Agreement with a byte-string model for search/replace/split/trim and the length/NUL invariant of every mutator are not decided."""
 import os
+import bytesets
 import ir, q, alias
 from ir import strip, strip_lv, const_val, T, pe, walk_expr, fn_exprs, AnalysisBroken
 from core import fwhere
@@ -142,7 +143,7 @@ def check_width(ctx, prog):
             continue
         allocs = [e for e in fn_exprs(f) if e.get('k') == 'call' and e.get('pq') == 'asl::String::alloc']
         convs = [e for e in fn_exprs(f) if e.get('k') == 'call' and (e.get('fn') in ('snprintf', 'sprintf') or e.get('pq') in ('asl::myitoa', 'asl::myltoa'))]
-        if len(allocs) != 1 or len(convs) != 1:
+        if not allocs or len(convs) != 1:
             continue
         n += 1
         ctx.analysed(f)
@@ -179,43 +180,56 @@ def check_width(ctx, prog):
             ctx.check(cap is not None and full + 1 <= cap and (sz is None or sz <= cap), 'C03.width', f['pq'], role + ':scratch buffer', where,
                       'widest text %d+1 fits the %s-byte scratch buffer' % (full, cap), 'widest text of `%s` is %d characters + NUL but the scratch buffer holds %s (snprintf size %s)' % (fmt, full, cap, sz))
             continue
-        arg = strip(allocs[0]['a'][0])
-        branches = []
-        if arg.get('k') == 'cond' and const_val(arg) is None:
+        # capacity by evaluation: for representative argument values (type limits, powers of ten and every constant of the
+        # constructor, each with its neighbours) the alloc call admitted by its guards is evaluated; the text of that value
+        # (exact decimal width for integers, the format's worst case for floating point) plus the NUL must fit its capacity
+        import bounded as _b
+        G = q.Guarded(f)
+        is_int = bool(pt.get('int'))
+        if is_int:
             lo = -2 ** (bits - 1) if sg else 0
             hi = 2 ** (bits - 1) - 1 if sg else 2 ** bits - 1
-            ok_parse = True
-            tlo, thi = lo, hi
-            for part in conj(arg['c']):
-                part = strip(part)
-                if part.get('k') == 'bin' and part.get('op') in ('<', '<=', '>', '>=') and strip(part['x']).get('id') == pid and const_val(part['y']) is not None:
-                    c = const_val(part['y'])
-                    if part['op'] == '<':
-                        thi = min(thi, c - 1)
-                    elif part['op'] == '<=':
-                        thi = min(thi, c)
-                    elif part['op'] == '>':
-                        tlo = max(tlo, c + 1)
-                    else:
-                        tlo = max(tlo, c)
-                else:
-                    ok_parse = False
-            if not ok_parse or const_val(arg['x']) is None or const_val(arg['y']) is None:
-                ctx.undecided('C03.width', f['pq'], role + ':capacity choice', where, 'capacity condition `%s` not an interval test on the argument' % pe(arg['c']))
-                continue
-            wtrue = interval_width(tlo, thi) if fmt in ('asl::myitoa', 'asl::myltoa') or fmt in ('%llu', '%u', '%lli', '%lld', '%i', '%d') else full
-            branches.append(('values in [%d, %d]' % (tlo, thi), const_val(arg['x']), wtrue))
-            branches.append(('all other values', const_val(arg['y']), full))
-        elif const_val(arg) is not None:
-            branches.append(('all values', const_val(arg), full))
+            reps = {lo, hi, 0, 1, -1, lo + 1, hi - 1}
+            for k in range(0, 20):
+                reps |= {10 ** k - 1, 10 ** k, 10 ** k + 1, -(10 ** k) - 1, -(10 ** k), -(10 ** k) + 1}
+            for w in fn_exprs(f):
+                if w.get('k') == 'int' and const_val(w) is not None:
+                    reps |= {const_val(w) - 1, const_val(w), const_val(w) + 1}
+            reps = sorted(x for x in reps if lo <= x <= hi)
         else:
-            ctx.undecided('C03.width', f['pq'], role + ':capacity choice', where, 'alloc argument `%s` is not a constant or an interval choice' % pe(arg))
-            continue
-        for desc, a, w in branches:
+            reps = [0.0, 1.0, -1.0, 1e15, -1e15, 1e300 if pt.get('s') != 'float' else 1e38, -1e-300 if pt.get('s') != 'float' else -1e-38]
+        worst = None
+        und = None
+        for x in reps:
+            ev = _b.Bound(prog, f, {pid: x}, {})
+            adm = []
+            unknown = False
+            for a_ in allocs:
+                r3 = _b.admitted3(ev, G.of(a_), G)
+                if r3 is True:
+                    adm.append(a_)
+                elif r3 is None:
+                    unknown = True
+            ctx.evaluations += 1
+            if unknown or len(adm) != 1:
+                und = 'for the argument %s, %d alloc calls are admitted%s' % (x, len(adm), ' and one is not evaluable' if unknown else '')
+                break
+            try:
+                a = ev.ev(adm[0]['a'][0])
+            except bytesets.Undecidable as u:
+                und = 'alloc argument `%s` not evaluable for %s: %s' % (pe(adm[0]['a'][0]), x, u)
+                break
+            wx = len(str(x)) if is_int and fmt in ('asl::myitoa', 'asl::myltoa', '%llu', '%u', '%lli', '%lld', '%i', '%d') else full
             cap = capacity(a, space)
-            ctx.check(w + 1 <= cap, 'C03.width', f['pq'], role + ':capacity for ' + ('interval branch' if desc.startswith('values') else desc), where,
-                      '%s: widest text %d + NUL <= capacity %d of alloc(%d)' % (desc, w, cap, a),
-                      '%s: the widest text has %d characters + NUL = %d bytes but alloc(%d) guarantees only %d: the conversion writes past the buffer (or is truncated)' % (desc, w, w + 1, a, cap))
+            if wx + 1 > cap and (worst is None):
+                worst = (x, wx, a, cap)
+        if und:
+            ctx.undecided('C03.width', f['pq'], role + ':capacity choice', where, und)
+            continue
+        ctx.check(worst is None, 'C03.width', f['pq'], role + ':capacity for every argument', where,
+                  'text + NUL fits the capacity of the admitted alloc for %d representative arguments (limits, powers of ten, constants of the constructor)' % len(reps),
+                  'for the argument %s the text has %d characters + NUL = %d bytes but alloc(%d) guarantees only %d: the conversion writes past the buffer (or is truncated)' % (
+                      (worst[0], worst[1], worst[1] + 1, worst[2], worst[3]) if worst else (0, 0, 0, 0, 0)))
     ctx.floor('C03.width numeric constructors', n, 6)
 
 
@@ -350,6 +364,48 @@ def check_resize_keep(ctx, prog):
 
 # ------------------------------------------------------------------ C03.search
 
+def interp_last_index(ctx, prog, f):
+    """lastIndexOf(const char*) decided by interpretation (scansim; indexOf and strstr interpreted / modelled) on every text over
+    {a, b} up to 6 characters and every pattern up to 3: the result must be the position of the last occurrence, overlapping
+    ones included, and no read may leave the text.  -> 1 when decided, None when the body is outside the interpreted fragment"""
+    import scansim, itertools
+    if len(f['params']) != 1 or not T(f, f['params'][0]['t']).get('ptr'):
+        return None
+    role = 'lastIndexOf%s:restart one position after each match' % f['sig']
+    bad = None
+    runs = 0
+    try:
+        for L in range(0, 7):
+            for text in itertools.product('ab', repeat=L):
+                for M in range(1, 4):
+                    for pat in itertools.product('ab', repeat=M):
+                        bufs = {'T': [ord(c) for c in text] + [0], 'PAT': [ord(c) for c in pat] + [0]}
+                        r = scansim.Run(prog, f, bufs, ptr_params={f['params'][0]['id']: ('P', 'PAT', 0)}, call_ptrs={'str': ('P', 'T', 0)},
+                                        methods={'indexOf': 'interp'}, mems={'_len': L})
+                        runs += 1
+                        try:
+                            got = r.run()
+                        except scansim.OOB as o:
+                            bad = '"%s".lastIndexOf("%s"): %s' % (''.join(text), ''.join(pat), o)
+                            break
+                        want = ''.join(text).rfind(''.join(pat))
+                        if got != want:
+                            bad = '"%s".lastIndexOf("%s") is %s, the last occurrence is at %d%s' % (''.join(text), ''.join(pat), got, want, ' (occurrences that overlap the previous match are skipped)' if isinstance(got, int) and 0 <= got < want else '')
+                            break
+                    if bad:
+                        break
+                if bad:
+                    break
+            if bad:
+                break
+    except (scansim.Unsupported, TypeError, KeyError, IndexError):
+        return None
+    ctx.analysed(f)
+    ctx.evaluations += runs
+    ctx.check(bad is None, 'C03.search', f['pq'], role, fwhere(f), 'interpreted on %d (text, pattern) pairs over {a,b}: result = position of the last occurrence, overlapping matches included' % runs, bad)
+    return 1
+
+
 def check_search_restart(ctx, prog):
     """C03.search: a scan for the *last* occurrence by repeated indexOf(s, from) restarts one position after each match.  A larger
     step (e.g. the pattern length) skips occurrences that overlap the previous match ("aaa".lastIndexOf("aa") must be 1).
@@ -358,6 +414,10 @@ def check_search_restart(ctx, prog):
     n = 0
     for f in prog.functions:
         if f.get('pq') != 'asl::String::lastIndexOf' or not f.get('body'):
+            continue
+        r = interp_last_index(ctx, prog, f)
+        if r is not None:
+            n += r
             continue
         loops = [s_ for s_ in ir.walk_stmts(f['body']) if s_.get('k') in ('while', 'for', 'do')]
         for lp in loops:
